@@ -25,6 +25,20 @@ import (
 // All workloads are preemptible train jobs unless drawn otherwise. Used by the closed-system check (C15) next to the
 // general generator.
 func Contention(seed int64, index int, tier string) *spec.Case {
+	return ContentionWith(seed, index, tier, ContentionOpts{})
+}
+
+// ContentionOpts adds what the victim-eligibility check (C06) needs to the contention clusters.
+type ContentionOpts struct {
+	// MinRuntime: half of the queues (any level) get a 1h reclaim and/or preempt min-runtime; 30 % of the running
+	// workloads started a minute ago (inside it), the rest ten hours ago; some workloads are non-preemptible
+	MinRuntime bool
+	// EarlyRecreate: open system with workload controllers - an evicted pod is replaced by a pending one as soon as it
+	// is terminating and stays terminating for 1-2 cycles
+	EarlyRecreate bool
+}
+
+func ContentionWith(seed int64, index int, tier string, opts ContentionOpts) *spec.Case {
 	r := NewRand(seed, index, 21)
 	now := time.Now().Truncate(time.Second)
 	c := &spec.Case{Seed: seed, Index: index, Profile: "contention", Meta: map[string]any{"tier": tier}, Cycles: 4}
@@ -108,6 +122,14 @@ func Contention(seed int64, index int, tier string) *spec.Case {
 			CreationTimestamp: metav1.NewTime(now.Add(-time.Duration(1000-len(c.Objects.Queues)) * time.Hour))},
 			Spec: enginev2.QueueSpec{ParentQueue: parent, Resources: &enginev2.QueueResources{
 				GPU: enginev2.QueueResource{Quota: quota, Limit: -1, OverQuotaWeight: oqw}, CPU: unl, Memory: unl}}}
+		if opts.MinRuntime {
+			if r.IntN(3) == 0 {
+				qu.Spec.ReclaimMinRuntime = &metav1.Duration{Duration: time.Hour}
+			}
+			if r.IntN(3) == 0 {
+				qu.Spec.PreemptMinRuntime = &metav1.Duration{Duration: time.Hour}
+			}
+		}
 		c.Objects.Queues = append(c.Objects.Queues, qu)
 	}
 	commonDepth := pk(1, 2, 2, 3, 3)
@@ -191,7 +213,14 @@ func Contention(seed int64, index int, tier string) *spec.Case {
 			pod.Spec.NodeName = c.Objects.Nodes[ni].Name
 			pod.Status.Phase = v1.PodRunning
 			pod.Annotations["received-resource-type"] = "Regular"
-			pg.Annotations["kai.scheduler/last-start-timestamp"] = now.Add(-10 * time.Hour).Format(time.RFC3339)
+			start := now.Add(-10 * time.Hour)
+			if opts.MinRuntime && r.IntN(10) < 3 {
+				start = now.Add(-time.Minute)
+			}
+			pg.Annotations["kai.scheduler/last-start-timestamp"] = start.Format(time.RFC3339)
+		}
+		if opts.MinRuntime && r.IntN(8) == 0 {
+			pg.Spec.Preemptibility = enginev2alpha2.NonPreemptible
 		}
 		wid++
 		c.Objects.PodGroups = append(c.Objects.PodGroups, pg)
@@ -279,6 +308,14 @@ func Contention(seed int64, index int, tier string) *spec.Case {
 			// jobs are created in index order: the first one is the oldest
 			workload(l.name, g, prio(), false, time.Duration(300-10*i-o)*time.Minute)
 		}
+	}
+	if opts.MinRuntime {
+		c.Config.PluginArgs["minruntime"] = map[string]string{"defaultReclaimMinRuntime": "0s", "reclaimResolveMethod": ps("lca", "queue")}
+	}
+	if opts.EarlyRecreate {
+		c.World.EarlyRecreate = true
+		c.World.MaxTerminateCycles = pk(1, 2)
+		c.Cycles = 6
 	}
 	return c
 }
